@@ -19,14 +19,14 @@ PROP = dict(
                        "Comdex.C09.flagged_borrow_is_backed", "Comdex.C09.v2_borrow_witness_atomic",
                        "Comdex.C09.seize_moves_exactly_collateral", "Comdex.C09.seize_opens_one_auction",
                        "Comdex.C09.v1_selloff_records", "Comdex.C09.v1_selloff_can_exceed_collateral_counterexample",
-                       "Comdex.C09.v1_borrow_safe_never_seized", "Comdex.C09.v1_msg_borrow_ignores_emode_counterexample",
+                       "Comdex.C09.v1_borrow_safe_never_seized", "Comdex.C09.v1_msg_borrow_ignored_emode_before_fix_counterexample",
                        "Comdex.C09.v1_borrow_seizure_effect", "Comdex.C09.auction_type_follows_whitelisting",
                        "Comdex.C09.external_liquidation_touches_no_position", "Comdex.C09.keeper_message_is_step_plus_mark",
                        "Comdex.C09.sweep_live_varbatch_partial", "Comdex.C09.zero_batch_processes_nothing"],
     harness_tests=["TestC09"],
     monitors=["safe_never_seized", "slice_bounds", "seized_within_bound", "seized_within_two_sweeps", "seized_late_after_divergence",
               "gen1_app3_offset_collision", "gen1_selloff_exceeds_collateral", "seize_exact_collateral", "one_auction", "store_order",
-              "auction_type", "gen1_msg_borrow_ignores_emode", "external_keeper_isolated", "batch_validated"],
+              "auction_type", "external_keeper_isolated", "batch_validated"],
     trusted_base=[KERNEL_TB, HARNESS_TB, DEC_TB,
                   "Model/Liquidation.lean is hand-written from x/liquidation (liquidate_vaults.go, msg_server.go, liquidate_borrow.go "
                   "offset bookkeeping, types/liquidations.go), x/liquidationsV2 (liquidate.go, offset.go, msg_server.go), "
@@ -71,9 +71,10 @@ META = dict(
          "independent of the borrow pass and every flagged borrow is backed by a locked vault and an auction (fixes 16be2e4, c15713f); "
          "a processed unsafe position is seized under the property's enabling conditions; seizure moves exactly "
          "amountIn into auction custody and opens exactly one auction, of the type the whitelisting selects (nothing is seized when no type is "
-         "enabled); generation-1 borrows: the sweep never touches a borrow that is safe under the applicable (e-mode aware) threshold, the effect "
-         "of a sell-off is exactly SeizedV1 (one locked vault, one lend auction), and the MESSAGE's e-mode blindness is refuted by a kernel-"
-         "evaluated witness replayed on the real code (D38); external-keeper / reserve messages touch no position; liveness also for batch sizes "
+         "enabled); generation-1 borrows: neither the sweep nor anybody's MsgLiquidateBorrow touches a borrow that is safe under the applicable "
+         "(e-mode aware) threshold (one test for both paths since fix f18ae51, finding D38; the pre-fix message is refuted by a kernel-evaluated "
+         "witness about an explicitly named pre-fix function), the effect of a sell-off is exactly SeizedV1 (one locked vault, one lend "
+         "auction); external-keeper / reserve messages touch no position; liveness also for batch sizes "
          "changed between blocks (any positive sizes).",
     note="Liveness is partial by necessity (the stated two-sweeps bound is false of the code); the refutation is replayed on the real code on "
          "every run and reported under the monitor name seized_within_two_sweeps. Trusted: Lean kernel, hand-written model as far as the correspondence exercises it, Dec model (differentially tested).",
